@@ -442,6 +442,9 @@ hashtable_iter_next(qb_map_iter_t * it, void **value)
 	}
 	if (!found) {
 		hi->node = NULL;
+		/* done: "no node" would otherwise be taken for "not started"
+		 * and the last bucket walked again */
+		hi->bucket = hash_table->hash_buckets_len;
 		return NULL;
 	}
 	hi->node = hash_node;
